@@ -58,6 +58,22 @@ def oracles(scn, raw):
     names = {p['addr']: i for i, p in enumerate(raw[0]['peers'])}
     info_hash, own_id = raw[0]['info_hash'], raw[0]['own_id']
     import collections
+    # a harness peer may be the second visit of an address ("addr#2"): hook and manager events carry the address only;
+    # they belong to the visit whose Accept/Spawn came last
+    visits = collections.defaultdict(list)
+    for p in raw[0]['peers']:
+        visits[p['addr'].split('#')[0]].append(p['addr'])
+    if any(len(v) > 1 for v in visits.values()):
+        seen = collections.Counter()
+        raw2 = []
+        for e in raw:
+            a = e.get('peer')
+            if e['src'] in ('h', 'mgr') and a in visits and len(visits[a]) > 1:
+                if e['src'] == 'mgr' and e['ev'] in ('Accept', 'Spawn'):
+                    seen[a] += 1
+                e = dict(e, peer=visits[a][min(max(seen[a], 1), len(visits[a])) - 1])
+            raw2.append(e)
+        raw = raw2
     wire = collections.defaultdict(list)     # (seq, vt, frame) written by the client, as decoded by the harness
     hooked = collections.defaultdict(list)   # frames the hooks say were written
     sends = collections.defaultdict(list)    # (seq, vt, frame) sent by the scripted peer
